@@ -99,6 +99,8 @@ def run_property(pid: str, tier: str, root: str, out_dir: str, evidence_dir: str
             say(f"SELFTEST independent_seeds={sd['seeds']} caught={sd['caught']} missed={len(sd['missed'])} n/a={len(sd['not_applicable'])}")
             for w in sd["missed"]:
                 say(f"SELFTEST-WEAK seed {w}")
+            for w in sd.get("documented_misses", []):
+                say(f"SELFTEST documented miss (outside what this check decides) {w[:200]}")
         tw = selftest.get("independent_twins")
         if tw:
             say(f"SELFTEST independent_twins={tw['twins']} silent={tw['silent']} noisy={len(tw['noisy'])} n/a={len(tw['not_applicable'])}")
